@@ -7,8 +7,12 @@
 (* (Mixing 'L'/'K' BEFORE an 'x' for the same entry is implementation-defined and excluded: ValidSeq.)       *)
 (* Also: the meaning of a sparse map (segments of data inside a file of a given real size).                  *)
 EXTENDS Naturals, Sequences, FiniteSets, TLC, Json
-CONSTANTS MaxExt, Emit, Pairs
-Vals == {1, 2}                                   \* value ids; 0 = the header's own value
+CONSTANTS MaxExt, Emit, Pairs,
+          NVals,                    \* number of distinguishable values per field (2 for C04, 1 for the robustness runs of C07)
+          AnySeq,                   \* TRUE = every extension sequence (C07), FALSE = only ValidSeq (C04)
+          SetByPaxSurvivesClear,    \* deviation: an 'x' record clears the pending values but not the "already set" mask
+          WriterXLast               \* deviation: sqfs2tar writes the 'x' record (xattrs) after the 'K' / 'L' records
+Vals == 1..NVals                                 \* value ids; 0 = the header's own value
 Ext == [t : {"L"}, v : Vals] \cup [t : {"K"}, v : Vals] \cup [t : {"g"}, v : {0}]
        \cup [t : {"x"}, name : {0} \cup Vals, link : {0} \cup Vals, uid : {0} \cup Vals]
 Kinds == {"file", "slink", "hlink", "dir"}
@@ -29,6 +33,39 @@ Impl(entry) == LET p == FoldExt(entry.exts, [name |-> 0, link |-> 0, uid |-> 0])
                [name |-> p.name, uid |-> p.uid,
                 link |-> IF entry.kind \in {"slink", "hlink"} THEN p.link ELSE 0 - 1]  \* link only meaningful for links
 
+(* ---- the same loop with the set_by_pax mask spelled out: pending value 0 = NULL pointer.  The entry header   *)
+(* fills in every field whose bit is clear; a set bit with a NULL value is a NULL dereference later on           *)
+(* (canonicalize_name(NULL), strlen(NULL)).                                                                       *)
+RECURSIVE FoldBits(_, _)
+FoldBits(exts, acc) ==
+  IF exts = <<>> THEN acc
+  ELSE LET e == Head(exts) IN
+       FoldBits(Tail(exts),
+         CASE e.t = "L" -> [acc EXCEPT !.name = e.v, !.nameBit = TRUE]
+           [] e.t = "K" -> [acc EXCEPT !.link = e.v, !.linkBit = TRUE]
+           [] e.t = "g" -> acc
+           [] e.t = "x" -> [name |-> e.name, link |-> e.link, uid |-> e.uid,
+                            nameBit |-> (e.name # 0) \/ (SetByPaxSurvivesClear /\ acc.nameBit),
+                            linkBit |-> (e.link # 0) \/ (SetByPaxSurvivesClear /\ acc.linkBit)])
+Pending(entry) == FoldBits(entry.exts, [name |-> 0, link |-> 0, uid |-> 0, nameBit |-> FALSE, linkBit |-> FALSE])
+NullDeref(entry) == \/ Pending(entry).nameBit /\ Pending(entry).name = 0
+                    \/ entry.kind \in {"slink", "hlink"} /\ Pending(entry).linkBit /\ Pending(entry).link = 0
+
+(* ---- the writer side (lib/tar/src/write_header.c write_tar_header): which extension records sqfs2tar puts in  *)
+(* front of an entry with a long name / long symlink target / xattrs, and in which order: x, K, L.              *)
+Attr == [kind : {"file", "dir", "slink"}, longname : BOOLEAN, longlink : BOOLEAN, xattr : BOOLEAN]
+WriterExts(a) ==
+  LET x == IF a.xattr THEN << [t |-> "x", name |-> 0, link |-> 0, uid |-> 0] >> ELSE << >>
+      k == IF a.kind = "slink" /\ a.longlink THEN << [t |-> "K", v |-> 1] >> ELSE << >>
+      l == IF a.longname THEN << [t |-> "L", v |-> 1] >> ELSE << >>
+  IN IF WriterXLast THEN k \o l \o x ELSE x \o k \o l
+(* reading back what the writer wrote yields the entry's own name and target (1 = the long value carried by L / K) *)
+WriterRoundTrip ==
+  \A a \in Attr : LET e == [exts |-> WriterExts(a), kind |-> a.kind]  p == Pending(e) IN
+     /\ ~NullDeref(e)
+     /\ p.name = (IF a.longname THEN 1 ELSE 0)
+     /\ (a.kind = "slink" => p.link = (IF a.longlink THEN 1 ELSE 0))
+
 (* ---- declarative rule ---- *)
 Setters(exts, f) == {i \in 1..Len(exts) : \/ (exts[i].t = "x" /\ exts[i][f] # 0)
                                           \/ (f = "name" /\ exts[i].t = "L") \/ (f = "link" /\ exts[i].t = "K")}
@@ -39,12 +76,17 @@ SpecOf(entry) == [name |-> LastVal(entry.exts, "name"), uid |-> LastVal(entry.ex
                   link |-> IF entry.kind \in {"slink", "hlink"} THEN LastVal(entry.exts, "link") ELSE 0 - 1]
 
 VARIABLES e1, e2
-Init == /\ e1 \in Entry /\ ValidSeq(e1.exts)
-        /\ e2 \in (IF Pairs THEN Entry ELSE {[exts |-> <<[t |-> "L", v |-> 2]>>, kind |-> "file"], [exts |-> <<>>, kind |-> "slink"]}) /\ ValidSeq(e2.exts)
+Init == /\ \E k \in 0..MaxExt : \E x \in [1..k -> Ext] : \E kd \in Kinds : e1 = [exts |-> x, kind |-> kd]
+        /\ (AnySeq \/ ValidSeq(e1.exts))
+        /\ e2 \in (IF Pairs THEN Entry ELSE {[exts |-> <<[t |-> "L", v |-> NVals]>>, kind |-> "file"], [exts |-> <<>>, kind |-> "slink"]}) /\ ValidSeq(e2.exts)
 Next == UNCHANGED <<e1, e2>>
 Spec == Init /\ [][Next]_<<e1, e2>>
-ImplIsSpec == Impl(e1) = SpecOf(e1) /\ Impl(e2) = SpecOf(e2)
-EmitOK == Emit => PrintT(<<"RESULT", ToJson([e1 |-> e1, e2 |-> e2, m1 |-> SpecOf(e1), m2 |-> SpecOf(e2)])>>)
+ImplIsSpec == (ValidSeq(e1.exts) => Impl(e1) = SpecOf(e1)) /\ Impl(e2) = SpecOf(e2)
+(* whatever precedes an entry, the reader never ends up with a "set" field that has no value *)
+WriterReaderRoundTrip == e1.kind \in Kinds /\ WriterRoundTrip       \* (state-level so that TLC reports it as an invariant violation)
+NoNullDeref == ~NullDeref(e1) /\ ~NullDeref(e2)
+BitsAgree == Pending(e1).name = FoldExt(e1.exts, [name |-> 0, link |-> 0, uid |-> 0]).name
+EmitOK == Emit => PrintT(<<"RESULT", ToJson([e1 |-> e1, e2 |-> e2, m1 |-> Impl(e1), m2 |-> Impl(e2), valid |-> ValidSeq(e1.exts)])>>)
 
 (* ---- sparse maps: Units of a file, Data = set of units that carry data ---- *)
 Expand(n, data) == [i \in 1..n |-> IF i \in data THEN i ELSE 0]
